@@ -74,6 +74,8 @@ pub struct ConnOp {
     pub reqs: &'static [(Kind, Beh)],
     /// the transport reports no peer address (unix socket, in-memory transport)
     pub no_peer: bool,
+    /// the (first) request carries `Expect: 100-continue`
+    pub expect: bool,
 }
 
 pub fn alphabet() -> Vec<ConnOp> {
@@ -87,14 +89,16 @@ pub fn alphabet() -> Vec<ConnOp> {
     let mut v = vec![];
     for marked in [true, false] {
         for s in SHAPES {
-            v.push(ConnOp { marked, reqs: s, no_peer: false });
+            v.push(ConnOp { marked, reqs: s, no_peer: false, expect: false });
         }
     }
+    // a request that asks for `100 Continue` (its parsed flags must not outlive it in a recycled head)
+    v.push(ConnOp { marked: false, reqs: SHAPES[0], no_peer: false, expect: true });
     // connections without a peer address (two request shapes): a recycled request head must not
     // keep the address of the connection that used it before
     for marked in [true, false] {
         for s in [SHAPES[0], SHAPES[3]] {
-            v.push(ConnOp { marked, reqs: s, no_peer: true });
+            v.push(ConnOp { marked, reqs: s, no_peer: true, expect: false });
         }
     }
     v
@@ -102,7 +106,7 @@ pub fn alphabet() -> Vec<ConnOp> {
 
 fn op_name(op: &ConnOp) -> String {
     let r: Vec<String> = op.reqs.iter().map(|(k, b)| format!("{k:?}.{b:?}")).collect();
-    format!("{}{}[{}]", if op.marked { "conn+data" } else { "conn" }, if op.no_peer { "-nopeer" } else { "" }, r.join(","))
+    format!("{}{}{}[{}]", if op.marked { "conn+data" } else { "conn" }, if op.no_peer { "-nopeer" } else { "" }, if op.expect { "-expect" } else { "" }, r.join(","))
 }
 
 fn request_bytes(op: &ConnOp, pos: usize) -> Vec<u8> {
@@ -123,7 +127,8 @@ fn request_bytes(op: &ConnOp, pos: usize) -> Vec<u8> {
         let last = j + 1 == op.reqs.len();
         out.extend_from_slice(
             format!(
-                "{method} {uri} HTTP/1.1\r\nhost: h-{tag}.test\r\nx-beh: {behs}\r\nx-tag: {tag}\r\ncookie: c=v{tag}\r\ncontent-length: 0\r\n{}\r\n",
+                "{method} {uri} HTTP/1.1\r\nhost: h-{tag}.test\r\nx-beh: {behs}\r\nx-tag: {tag}\r\ncookie: c=v{tag}\r\ncontent-length: 0\r\n{}{}\r\n",
+                if op.expect && j == 0 { "expect: 100-continue\r\n" } else { "" },
                 if last { "connection: close\r\n" } else { "" }
             )
             .as_bytes(),
@@ -139,6 +144,33 @@ fn marker_of(op: &ConnOp, pos: usize) -> Option<String> {
 /// One connection through `svc`; returns the stage dumps grouped as one list, plus addresses of
 /// the request objects (one per request, taken at the app middleware).
 async fn run_conn<S>(svc: &S, ctx: &Ctx, op: &ConnOp, pos: usize) -> Result<(Vec<String>, Vec<usize>), String>
+where
+    S: Service<(MemIo, Option<SocketAddr>), Response = ()>,
+    S::Error: std::fmt::Debug,
+{
+    run_conn_wire(svc, ctx, op, pos).await.map(|(mut d, a, w)| {
+        // what the connection wrote (status lines and framing; the date value is blanked) is part
+        // of the observation: an interim response, a different framing or an extra header that
+        // depends on earlier connections shows up here
+        d.push(format!("@wire\n{w}"));
+        (d, a)
+    })
+}
+
+fn stable_wire(out: &[u8]) -> String {
+    let text = String::from_utf8_lossy(out);
+    let mut s = String::new();
+    for line in text.split_inclusive("\r\n") {
+        if line.to_ascii_lowercase().starts_with("date:") {
+            s.push_str("date: <blanked>\r\n");
+        } else {
+            s.push_str(line);
+        }
+    }
+    s
+}
+
+async fn run_conn_wire<S>(svc: &S, ctx: &Ctx, op: &ConnOp, pos: usize) -> Result<(Vec<String>, Vec<usize>, String), String>
 where
     S: Service<(MemIo, Option<SocketAddr>), Response = ()>,
     S::Error: std::fmt::Debug,
@@ -203,7 +235,8 @@ where
         ));
     }
     let addrs = std::mem::take(&mut *ctx.addrs.borrow_mut());
-    Ok((dumps, addrs))
+    let wire = stable_wire(&out.borrow());
+    Ok((dumps, addrs, wire))
 }
 
 async fn new_h1(
